@@ -79,7 +79,15 @@ def case_constraint(**p):
   case.encoded(LL.LatticeConstraints.__call__, ll.finalize_constraints, ll._approximately_project_monotonicity,
                ll._approximately_project_edgeworth, ll._approximately_project_trapezoid,
                ll._trapezoid_violation_update, ll._approximately_project_bounds, ll.project_by_dykstra)
-  con = _constraint_of(p)
+  try:
+    con = _constraint_of(p)
+  except ValueError as e:
+    if p.get('via') != 'layer':
+      raise
+    # e.g. a one-sided non-positive upper bound: the layer's default initialisation range is empty and build() rejects it
+    case.record('configuration-rejected-up-front', 'unsat', kind='structural', witness={}, replay=None, sig=dict(query='rejected'),
+                note='ValueError: %s' % str(e)[:160])
+    return case
   if p.get('via') == 'layer':
     case.encoded(LL.Lattice.build)
   tr = Traced(lambda w: con(w), [tf.TensorSpec([n, units], tf.float32)], name='LatticeConstraints')
